@@ -5,6 +5,7 @@ package c15
 // environment snapshot / read-end.
 
 import (
+	"context"
 	"fmt"
 	"os"
 	"sort"
@@ -37,14 +38,16 @@ type runCase struct {
 	Stages        []runStage
 	DefaultParams map[string]string // nil: no default parameters
 	Concurrency   int
-	PreSleepUs    []int // per body (cyclic): sleep before read-start
-	MidSleepUs    []int // per body (cyclic): sleep between snapshot and read-end
+	PreSleepUs    []int         // per body (cyclic): sleep before read-start
+	Cut           string        // "" | "max-duration" | "cancel": the run is cut short inside the plan
+	CutAfter      time.Duration // where
+	MidSleepUs    []int         // per body (cyclic): sleep between snapshot and read-end
 }
 
 func (c runCase) config() planCfg {
 	p := planCfg{
 		Scenario: ptr(vlib.ScenarioName),
-		Limits: limitsCfg{MaxDuration: ptr(runMaxDuration), Concurrency: ptr(c.Concurrency), MaxIterations: ptr(uint64(0)),
+		Limits: limitsCfg{MaxDuration: ptr(c.maxDuration()), Concurrency: ptr(c.Concurrency), MaxIterations: ptr(uint64(0)),
 			IgnoreDropped: ptr(true)},
 		Default: stageCfg{Jitter: ptr(0.0), Distribution: ptr("none")},
 	}
@@ -64,6 +67,13 @@ func (c runCase) config() planCfg {
 		p.Stages = append(p.Stages, sc)
 	}
 	return p
+}
+
+func (c runCase) maxDuration() time.Duration {
+	if c.Cut == "max-duration" {
+		return c.CutAfter
+	}
+	return runMaxDuration
 }
 
 // expectedEnv: the parameters of stage k per the documented rules (stage's own, else the default section's, else none).
@@ -113,6 +123,15 @@ func genRun(t *rapid.T) runCase {
 			s.Params = genParams(t, fmt.Sprintf("s%dParams", i), &seq)
 		}
 		c.Stages = append(c.Stages, s)
+	}
+	// some runs are cut short strictly inside the plan: by limits.max-duration or by cancelling the run
+	c.Cut = rapid.SampledFrom([]string{"", "", "", "max-duration", "cancel"}).Draw(t, "cut")
+	if c.Cut != "" {
+		var total time.Duration
+		for _, s := range c.Stages {
+			total += s.Duration
+		}
+		c.CutAfter = time.Duration(rapid.IntRange(60, int(total/time.Millisecond)-40).Draw(t, "cutAfterMs")) * time.Millisecond
 	}
 	sleeps := rapid.SliceOfN(rapid.SampledFrom([]int{0, 0, 0, 100, 500, 2000, 8000, 25000, 45000}), 1, 7)
 	c.PreSleepUs = sleeps.Draw(t, "preSleepUs")
@@ -322,6 +341,15 @@ func TestProp_StagedRun(t *testing.T) {
 			}
 		}
 		spec := &vlib.RunSpec{Mode: "file", FileYAML: text, FileDir: dir, ScenarioFn: scenario, WaitTimeout: 20 * time.Second}
+		if c.Cut == "cancel" {
+			ctx, cancel := context.WithCancel(context.Background())
+			defer cancel()
+			spec.Ctx = ctx
+			go func() {
+				time.Sleep(c.CutAfter)
+				cancel()
+			}()
+		}
 		started := time.Now()
 		_, err := vlib.Execute(spec)
 		elapsed := time.Since(started)
@@ -365,6 +393,9 @@ func TestProp_StagedRun(t *testing.T) {
 		if facts.Begins == len(c.Stages) {
 			classes = append(classes, "all-stages-executed")
 		}
+		if c.Cut != "" {
+			classes = append(classes, "cut-short-by-"+c.Cut)
+		}
 		if facts.Unjudged > 0 {
 			classes = append(classes, "bodies-straddling-a-stage-event")
 		}
@@ -395,6 +426,8 @@ func TestProp_StagedRun(t *testing.T) {
 		}
 		if facts.Begins == len(c.Stages) {
 			stats.AddNote("run_all_stages_executed", 1)
+		} else if c.Cut != "" {
+			stats.AddNote("run_cut_short_on_purpose", 1)
 		} else if elapsed < total-50*time.Millisecond {
 			fail(fmt.Sprintf("%d stages were executed, the plan has %d, although the run returned after %s, before the plan's budget of %s ran out",
 				facts.Begins, len(c.Stages), elapsed, total))
